@@ -37,7 +37,7 @@ Accepts(e) ==
 TraceValidate ==
   /\ l <= Len(Trace)
   /\ Trace[l].ev = "Validate"
-  /\ Accepts(Trace[l])
+  /\ Accepts(Trace[l]) = TRUE
   /\ inv' = Trace[l].inv /\ links' = Trace[l].links /\ now' = Trace[l].now
   /\ v' = RunV(InitV(Trace[l].inv, Trace[l].links, Trace[l].now))
   /\ l' = l + 1
